@@ -22,6 +22,36 @@ fn space(tier: Tier) -> &'static Space {
 }
 const N: usize = 8;
 
+/// hand-written templates with one renamable local `@L@` placed next to every kind of name it could collide
+/// with (sibling / parent-module functions, the module's own name, top-level functions, desugaring temporaries)
+const TEMPLATES: [(&str, &[&str]); 3] = [
+    (
+        "mod m {\n  pub fn shape(x) {\n    x * 100.0\n  }\n  pub fn run(@L@, x) {\n    @L@ + x\n  }\n  pub fn run2(x) {\n    let @L@ = x * 0.5\n    @L@ + 1.0\n  }\n  pub fn run3(x) {\n    |@L@| @L@ + x\n  }\n}\nfn other(x) {\n  x * 7.0\n}\nfn dsp(x) {\n  m::run(2.0, x) + m::run2(x) + m::shape(0.0) + m::run3(x)(1.0) + other(0.0)\n}\n",
+        &["shape", "run", "run2", "run3", "m", "other", "dsp", "lambda_0", "_mimium_global"],
+    ),
+    (
+        "mod outer {\n  pub fn bias(x) {\n    x * 1000.0\n  }\n  pub mod inner {\n    pub fn f(@L@, x) {\n      let t = @L@ * 2.0\n      t + x\n    }\n  }\n}\nfn dsp(x) {\n  outer::inner::f(2.0, x) + outer::bias(0.0)\n}\n",
+        &["bias", "outer", "inner", "f", "dsp"],
+    ),
+    (
+        "fn dsp(x) {\n  let r = {a = 1.0, b = 2.0}\n  let @L@ = 5.0 + x\n  let r2 = {r <- a = @L@}\n  r2.a + r2.b\n}\n",
+        &["record_update_temp", "r2", "a", "__dt0", "lambda_0"],
+    ),
+];
+fn n_templates() -> u64 {
+    TEMPLATES.iter().map(|t| t.1.len() as u64).sum()
+}
+fn template_case(mut k: u64) -> (String, String, String) {
+    for (text, names) in TEMPLATES.iter() {
+        if k < names.len() as u64 {
+            let n = names[k as usize];
+            return (text.replace("@L@", "q"), text.replace("@L@", n), format!("local q -> {n}"));
+        }
+        k -= names.len() as u64;
+    }
+    unreachable!()
+}
+
 fn observe(b: Backend, src: &str, nin: usize) -> Result<Vec<Vec<f64>>, RunErr> {
     run_backend(b, src, false, nin, 0, N, false).map(|fr| fr.out)
 }
@@ -38,7 +68,7 @@ impl Prop for C16 {
         "C16"
     }
     fn n_cases(&self, tier: Tier) -> u64 {
-        space(tier).n() * TMAX
+        space(tier).n() * TMAX + n_templates()
     }
     fn chunk(&self, _t: Tier) -> u64 {
         400
@@ -47,24 +77,30 @@ impl Prop for C16 {
         40_000
     }
     fn run_case(&self, tier: Tier, idx: u64) -> CaseOut {
-        let (base, t) = (idx / TMAX, idx % TMAX);
-        let (_, g) = space(tier).get(base);
-        let Some(g) = g else {
-            return CaseOut { key: idx, nontrivial: false, outcome: "invalid_index".into(), ..Default::default() };
+        let nfam = space(tier).n() * TMAX;
+        let (src, v, mut tags, family, inputs) = if idx >= nfam {
+            let (base, transformed, what) = template_case(idx - nfam);
+            let name = what.rsplit(' ').next().unwrap().to_string();
+            (base, xform::Variant { source: transformed, kind: "rename", what, tags: vec!["rename".into(), "rename_to_name_used_elsewhere".into(), format!("rename_to_{name}")] }, vec!["template".to_string()], "template", 1usize)
+        } else {
+            let (base, t) = (idx / TMAX, idx % TMAX);
+            let (_, g) = space(tier).get(base);
+            let Some(g) = g else {
+                return CaseOut { key: idx, nontrivial: false, outcome: "invalid_index".into(), ..Default::default() };
+            };
+            let Some(v) = xform::nth(&g.prog, t) else {
+                return CaseOut { key: idx, nontrivial: false, outcome: "no_such_transformation".into(), ..Default::default() };
+            };
+            (g.source(), v, g.tags(), g.family, g.inputs)
         };
-        let Some(v) = xform::nth(&g.prog, t) else {
-            return CaseOut { key: idx, nontrivial: false, outcome: "no_such_transformation".into(), ..Default::default() };
-        };
-        let src = g.source();
-        let mut tags = g.tags();
         tags.extend(v.tags.iter().cloned());
         let mut fails = vec![];
-        let backends: &[Backend] = if idx % 16 == 0 { &[Backend::Vm, Backend::Wasm] } else { &[Backend::Vm] };
+        let backends: &[Backend] = if idx % 16 == 0 || idx >= nfam { &[Backend::Vm, Backend::Wasm] } else { &[Backend::Vm] };
         let mut outcome = "same";
         let mut nontrivial = false;
         for &b in backends {
-            let a = observe(b, &src, g.inputs);
-            let c = observe(b, &v.source, g.inputs);
+            let a = observe(b, &src, inputs);
+            let c = observe(b, &v.source, inputs);
             match (&a, &c) {
                 (Ok(x), Ok(y)) => {
                     nontrivial = true;
@@ -96,11 +132,15 @@ impl Prop for C16 {
             outcome: outcome.into(),
             fails,
             tags,
-            repr: json!({"family": g.family, "transformation": v.kind, "what": v.what, "base_source": src, "transformed_source": v.source.chars().take(1500).collect::<String>()}),
+            repr: json!({"family": family, "transformation": v.kind, "what": v.what, "base_source": src, "transformed_source": v.source.chars().take(1500).collect::<String>()}),
             counters: vec![(format!("kind_{}", v.kind), 1)],
         }
     }
     fn describe_case(&self, tier: Tier, idx: u64) -> (Value, Vec<String>) {
+        if idx >= space(tier).n() * TMAX {
+            let (b, _, what) = template_case(idx - space(tier).n() * TMAX);
+            return (json!({"transformation": "rename", "what": what, "base_source": b}), vec!["template".into()]);
+        }
         let (base, t) = (idx / TMAX, idx % TMAX);
         if let (_, Some(g)) = space(tier).get(base) {
             if let Some(v) = xform::nth(&g.prog, t) {
@@ -117,7 +157,7 @@ impl Prop for C16 {
     fn describe(&self, tier: Tier) -> Descr {
         Descr {
             rule: format!(
-                "for every program of the families {} every single transformation: each user identifier (function, parameter, let-bound name) renamed to each of {} adversarial names (compiler-generated-looking, non-ASCII, 300 characters); each expression node wrapped in 1, 2 and 21 pairs of parentheses; {} layout/comment variants of the printed text; the inferred `:float` annotation added to each parameter / let binder whose type the builder knows. Base and transformed text are compiled and run for {N} samples on the VM (every 16th case also on WASM): same accept/reject, bit-identical outputs. non-trivial = both ran.",
+                "for every program of the families {} every single transformation: each user identifier (function, parameter, let-bound name) renamed to each of {} adversarial names (compiler-generated-looking, non-ASCII, 300 characters); each expression node wrapped in 1, 2 and 21 pairs of parentheses; {} layout/comment variants of the printed text; the inferred `:float` annotation added to each parameter / let binder whose type the builder knows; plus hand-written module / record-update templates in which one local is renamed to every other name of the program it does not capture (sibling and parent-module functions, module names, desugaring temporaries). Base and transformed text are compiled and run for {N} samples on the VM (every 16th case also on WASM): same accept/reject, bit-identical outputs. non-trivial = both ran.",
                 space(tier).describe(),
                 xform::NAMES.len(),
                 xform::LAYOUTS.len()
